@@ -175,6 +175,7 @@ class Runner:
             m.after_action(self, a)
 
     def run(self, actions):
+        self.actions = list(actions)
         for a in actions:
             if self.world.deadlock is not None or (self.stop_on_death and self.world.dead):
                 break
